@@ -6,7 +6,7 @@ import { CompilePool, classify, DEFAULT_SETTINGS } from "./compile.mjs";
 import { loadProgram, REPO } from "./runtime.mjs";
 import { familyPrograms } from "./cases.mjs";
 import { renderProgram } from "./spec.mjs";
-import { basePrograms as c09bases, renderLayout, STYLES as C09STYLES } from "./c09.mjs";
+import { basePrograms as c09bases, renderLayout, STYLES as C09STYLES, collisionFamily } from "./c09.mjs";
 
 // ---- generator 2: a syntactic grammar over the TypeScript type syntax -------------------------------------
 function grammarPrograms() {
@@ -321,6 +321,7 @@ export async function run() {
       for (const st of C09STYLES) layouts.push({ name: `${b.name}/${st}`, files: renderLayout(b, new Map(names.map((n, i) => [n, ["a", "b", "entry"][i % 3]])), st), keys: b.parsers.map(([n]) => n) });
     }
     await mapLimit(layouts, 32, (p) => judge("layouts", p));
+    await mapLimit(collisionFamily(TIER === "thorough" ? 4 : 3), 32, (p) => judge("same-name layouts", p));
     // generator 2
     await mapLimit(grammarPrograms(), 32, (p) => judge("grammar", p));
     // generator 4
